@@ -70,8 +70,10 @@
 //
 // A target may name, per function, a list of rewrite rules `printed Go
 // expression |-> parameter : type` for the non-pure reads it contains
-// (pc.isClosed.Load() |-> closed : bool).  A rule that no longer matches
-// anything is a refusal; any other field read / call / receiver use is a refusal.
+// (pc.isClosed.Load() |-> closed : bool; for a fragment also a local variable
+// of the enclosing function that is computed before the fragment, weOffer |->
+// weOffer : bool).  A rule that no longer matches anything is a refusal; any
+// other field read / call / receiver use / free identifier is a refusal.
 // A target may select a fragment of a function: the statements from `v := …`
 // to the last assignment of v (value: v), or the unique `switch <tag>` statement
 // (every path must return).
